@@ -182,11 +182,12 @@ func VerifElectionHeld(r *Raft) map[string]func() {
 	}
 	votesRecieved := 1
 	isPrevote := r.state == PreCandidate
+	term := r.currentTerm
 	held := map[string]func(){}
 	for id, address := range r.configuration.Members {
 		if id != r.id && r.isVoter(id) {
 			id, address := id, address
-			held[id] = func() { r.sendRequestVote(id, address, &votesRecieved, isPrevote) }
+			held[id] = func() { r.sendRequestVote(id, address, &votesRecieved, isPrevote, term) }
 		}
 	}
 	return held
